@@ -14,6 +14,8 @@ pub static WATCHDOG: AtomicU64 = AtomicU64::new(5_000_000);
 /// Number of runs that hit the watchdog in this process (campaigns other than C04 stop expanding
 /// work once this is large: on a tree where the solvers hang, every such run costs a full budget).
 pub static HANGS: AtomicU64 = AtomicU64::new(0);
+/// runs C04 judged stuck (no return even at 8x the watchdog): each is already a violation
+pub static STUCK: AtomicU64 = AtomicU64::new(0);
 
 thread_local! {
     static LAST_PANIC: RefCell<Option<String>> = const { RefCell::new(None) };
